@@ -15,9 +15,29 @@ from harness.core import Ctx
 LEAN = core.LEAN
 GEN_FILE = LEAN / "SciVerif" / "Generated" / "C19Tables.lean"
 
-RULE = ""
-ASSUMPTIONS = []
-EXPLANATION = ""
+RULE = ("corpus of recon inputs first (corpus/C19/cases.json), then random DIP sources (1-7 parameters over every type keyword "
+        "the live parser accepts, scalars and rectangular arrays of rank 1-3, type min/max and 0.1/1e-5/1e300-like values, strings "
+        "over an alphabet with quotes, $, backslash, blanks) parsed by the real DIP; each environment is exported through all 9 "
+        "back-ends with random options (rename, guard, define/const lists, module, export, units) and query/tag selections; "
+        "non-trivial = selection contains an array or >= 3 parameters; distinct = canonical JSON of (source, back-end, options, selection)")
+ASSUMPTIONS = [
+    "the installed gcc, g++, gfortran (-ffree-line-length-none), rustc, bash are the ground truth for what exported text means; "
+    "json (stdlib), yaml.safe_load, tomllib and the DIP parser are trusted readers",
+    "reader models (Lean) cover only text the exporters emit and are validated against the real tools on every run, not derived "
+    "from a language semantics; texts they do not cover (strings with quote/backslash/$) are judged by the real tool only",
+    "floats are compared exactly (C, C++, Rust, Bash, data formats) or with relative tolerance 1.5e-7 for 32-bit targets and "
+    "1e-15 otherwise; Python's repr/float round trip is assumed; -0.0, inf, nan and float32 nodes holding values outside the "
+    "binary32 range are outside the domain",
+    "Fortran character values are compared modulo trailing blanks (Fortran's own equality); len= is not compared",
+    "none values, empty strings, non-ASCII strings, empty arrays, parameters in `define` that are arrays, names that are not "
+    "identifiers after the documented mapping (compiled back-ends) and tag selections with more than one selector are outside the domain",
+    "a preprocessor definition has no declared type: only its value is compared (booleans as 1/0)",
+    "rust float128 -> f64 is the documented exception; JSON/YAML/TOML carry no declared widths",
+]
+EXPLANATION = ("theorems: decimal print/read identity for all integers; the bracket machine inverts the nested-list printer for all "
+               "trees; typed initialiser round trip for C/C++ and Rust for every nested value of every kind; type tables "
+               "(regenerated from _parse_dtype and measured with the compilers) give same class/width/signedness except the listed "
+               "lacking types; reshape column-major counterexample; selection characterisation; rename non-injectivity; shaping")
 
 _TMP = None
 
@@ -235,3 +255,1336 @@ def gen_tables(ctx):
     if core.write_if_changed(GEN_FILE, render_tables(rows, info, dip_types)):
         changed.append(str(GEN_FILE.relative_to(LEAN)))
     return changed
+
+
+# =============================================================== environments
+import math
+import random
+import re
+
+import numpy as np
+
+_INFO = None     # (backend, target) -> (kind, bits), from the translator run
+
+
+def target_info():
+    global _INFO
+    if _INFO is None:
+        _INFO = measure_targets(probe_types())
+    return _INFO
+
+
+class P:
+    """One parameter of a real, parsed environment (the truth the model and the oracle start from)."""
+
+    def __init__(self, name, kind, bits, value, unit, tags):
+        self.name, self.kind, self.bits, self.value, self.unit, self.tags = name, kind, bits, value, unit, tags
+
+    def shape(self):
+        return list(np.shape(self.value)) if isinstance(self.value, list) else []
+
+    def flat(self):
+        out = []
+
+        def rec(v):
+            if isinstance(v, list):
+                for x in v:
+                    rec(x)
+            else:
+                out.append(v)
+        rec(self.value)
+        return out
+
+    def model(self):
+        def enc(v):
+            if isinstance(v, list):
+                return [enc(x) for x in v]
+            if isinstance(v, bool):
+                return v
+            if isinstance(v, int):
+                return v
+            if isinstance(v, float):
+                return {"f": repr(v)}
+            return {"s": v}
+        return {"name": self.name, "kind": self.kind, "bits": self.bits, "value": enc(self.value),
+                "unit": self.unit, "tags": self.tags or []}
+
+    def brief(self):
+        return {"name": self.name, "type": "%s%s" % (self.kind, self.bits or ""), "value": self.value,
+                "unit": self.unit, "tags": self.tags}
+
+
+def dip_scalar_text(kind, v):
+    if kind == "bool":
+        return "true" if v else "false"
+    if kind in ("int", "uint"):
+        return str(v)
+    if kind == "float":
+        return repr(v)
+    if "'" not in v:
+        return "'%s'" % v
+    if '"' not in v:
+        return '"%s"' % v
+    return '"""%s"""' % v
+
+
+def dip_source(specs):
+    """DIP text for a list of (name, kind, bits, value, unit, tags)."""
+    lines = []
+    for name, kind, bits, value, unit, tags in specs:
+        kw = {"bool": "bool", "str": "str", "int": "int", "uint": "uint", "float": "float"}[kind]
+        if kind in ("int", "uint") and bits != 32:
+            kw += str(bits)
+        if kind == "float" and bits != 64:
+            kw += str(bits)
+        if isinstance(value, list):
+            dims = ",".join(str(d) for d in np.shape(value))
+            txt = json.dumps(value, separators=(",", ":"))
+            if kind == "str" or " " in txt:
+                txt = "'%s'" % txt if "'" not in txt else '"""%s"""' % txt
+            line = "%s %s[%s] = %s" % (name, kw, dims, txt)
+        else:
+            line = "%s %s = %s" % (name, kw, dip_scalar_text(kind, value))
+        if unit:
+            line += " " + unit
+        lines.append(line)
+        if tags:
+            lines.append("  !tags %s" % json.dumps(tags, separators=(",", ":")))
+    return "\n".join(lines) + "\n"
+
+
+def parse_env(src):
+    """Parse with the real DIP; returns (env, [P]) or None when the source is rejected."""
+    from scinumtools.dip import DIP
+    from scinumtools.dip.settings import Format
+    from scinumtools.dip.datatypes import StringType, BooleanType, FloatType, IntegerType
+    try:
+        with DIP() as dip:
+            dip.add_string(src)
+            env = dip.parse()
+        data = env.data(Format.TYPE)
+        tags = {n.name: (list(n.tags) if getattr(n, "tags", None) else []) for n in env.nodes}
+    except Exception:
+        return None
+    ps = []
+    for name, p in data.items():
+        if isinstance(p, BooleanType):
+            kind, bits = "bool", 0
+        elif isinstance(p, StringType):
+            kind, bits = "str", 0
+        elif isinstance(p, IntegerType):
+            kind, bits = ("uint" if p.unsigned else "int"), int(p.precision)
+        elif isinstance(p, FloatType):
+            kind, bits = "float", int(p.precision)
+        else:
+            return None
+        if not well_typed(kind, p.value):
+            return None
+        ps.append(P(name, kind, bits, p.value, p.unit if kind not in ("bool", "str") else None, tags.get(name, [])))
+    if len({p.name for p in ps}) != len(ps):
+        return None
+    return env, ps
+
+
+def well_typed(kind, v):
+    if isinstance(v, list):
+        if not v:
+            return False
+        try:
+            sh = np.shape(np.array(v, dtype=object))
+        except Exception:
+            return False
+        return all(well_typed(kind, x) for x in v) and len({str(np.shape(x)) for x in v}) == 1
+    if kind == "bool":
+        return isinstance(v, bool)
+    if kind in ("int", "uint"):
+        return isinstance(v, int) and not isinstance(v, bool)
+    if kind == "float":
+        return isinstance(v, float) and math.isfinite(v) and not (v == 0 and math.copysign(1, v) < 0)
+    return isinstance(v, str) and v != "" and all(32 <= ord(c) < 127 for c in v)
+
+
+# ---------------------------------------------------------------- generators
+UNITS = [None, None, "cm", "m", "s", "g/cm3", "kg"]
+BENIGN = "abcdefghijklmnopqrstuvwxyzABCXYZ0123456789_ "
+SPECIAL = "\"\\$'#!{}[],;:=()%&*"
+WORDS = ["Configuration test", "abc", "x", "run 12", "a_b", "Hello World 42", "gamma=5/3", "T", "file.txt", "a,b", "{x}", "[1]"]
+
+
+def gen_string(rng, special):
+    if not special and rng.random() < 0.5:
+        return rng.choice(WORDS)
+    n = rng.randint(1, 10)
+    s = "".join(rng.choice(BENIGN + (SPECIAL if special else "")) for _ in range(n)).strip()
+    return s or "s"
+
+
+def int_range(kind, bits):
+    return (0, 2 ** bits - 1) if kind == "uint" else (-2 ** (bits - 1), 2 ** (bits - 1) - 1)
+
+
+def gen_int(rng, kind, bits, array):
+    lo, hi = int_range(kind, bits)
+    if array and bits == 64:            # np.array(dtype=int) holds the elements: int64 range
+        lo, hi = max(lo, -2 ** 63), min(hi, 2 ** 63 - 1)
+    r = rng.random()
+    if r < 0.12:
+        return hi
+    if r < 0.24:
+        return lo
+    if r < 0.6:
+        return rng.randint(max(lo, -100), min(hi, 100))
+    if r < 0.8:
+        return rng.randint(max(lo, -2 ** 31 + 1), min(hi, 2 ** 31 - 1))
+    return rng.randint(lo, hi)
+
+
+F_NICE = [0.1, 1e-5, 15.0, 0.5, 23.4, 96.4, 2.0, 1.0, 300000.0, 3.14159, 1e16, 1.5e-7, 0.25, 46.0, 12.0, 1e22, 123456.789]
+
+
+def gen_float(rng, bits):
+    r = rng.random()
+    if r < 0.5:
+        v = rng.choice(F_NICE)
+    elif r < 0.6 and bits != 32:
+        v = rng.choice([1e300, 1e-300, 1.7976931348623157e308, 2.2250738585072014e-308])
+    elif r < 0.8:
+        v = float(rng.randint(-1000, 1000)) / rng.choice([1, 2, 4, 8, 10, 100])
+    else:
+        v = rng.uniform(-1, 1) * 10.0 ** rng.randint(-30 if bits == 32 else -200, 30 if bits == 32 else 200)
+    if rng.random() < 0.2:
+        v = -v
+    if v == 0:
+        v = 0.0
+    return v
+
+
+def gen_shape(rng):
+    r = rng.random()
+    if r < 0.45:
+        return []
+    if r < 0.7:
+        return [rng.randint(1, 4)]
+    if r < 0.9:
+        return [rng.randint(1, 3), rng.randint(1, 4)]
+    return [rng.randint(1, 3), rng.randint(1, 3), rng.randint(1, 3)]
+
+
+def build_array(shape, leaf):
+    if not shape:
+        return leaf()
+    return [build_array(shape[1:], leaf) for _ in range(shape[0])]
+
+
+def gen_specs(rng, dip_types, n, special=False, arrays=True):
+    specs = []
+    used = set()
+    groups = ["", "", "box.", "sim.", "grp.sub."]
+    for i in range(n):
+        kind, bits = rng.choice(dip_types)
+        while True:
+            name = rng.choice(groups) + rng.choice(["a", "b", "cc", "width", "n1", "val", "name", "k9", "flag"]) + \
+                rng.choice(["", "", "x", "2"])
+            key = name.upper().replace(".", "_")
+            if key not in used and not any(u.startswith(name + ".") or name.startswith(u + ".") for u in
+                                           [s[0] for s in specs]):
+                used.add(key)
+                break
+        shape = gen_shape(rng) if arrays else []
+        if kind == "bool":
+            leaf = lambda: rng.random() < 0.5
+        elif kind == "str":
+            sp = special and rng.random() < 0.5
+            leaf = lambda: gen_string(rng, sp)
+        elif kind in ("int", "uint"):
+            leaf = lambda: gen_int(rng, kind, bits, bool(shape))
+        else:
+            leaf = lambda: gen_float(rng, bits)
+        value = build_array(shape, leaf)
+        unit = rng.choice(UNITS) if kind in ("int", "uint", "float") else None
+        tags = rng.choice([None, None, ["t1"], ["t2"], ["t1", "t2"]])
+        specs.append((name, kind, bits, value, unit, tags))
+    return specs
+
+
+# =============================================================== real readers
+IDENT = re.compile(r"^[A-Za-z_][A-Za-z0-9_]*$")
+
+
+def py_rename(name, on=True):
+    return name.upper().replace(".", "_") if on else name
+
+
+def hexs(s):
+    return s.encode("latin-1", "replace").hex()
+
+
+def loops(shape, var="c19_i"):
+    return ["%s%d" % (var, k) for k in range(len(shape))]
+
+
+C_MAIN = r'''
+#include <stdio.h>
+#include <string.h>
+#include "%(header)s"
+#define TY(x) __typeof__(x)
+#define PNUM(E) do { double c19_h_ = (double)(TY(E))0.5; \
+  if (c19_h_ == 0.5) printf("e f %%.21Lg\n", (long double)(E)); \
+  else if ((E) < 0) printf("e i %%lld\n", (long long)(E)); \
+  else printf("e i %%llu\n", (unsigned long long)(E)); } while (0)
+#define PTYPE(E) printf("type %%d %%d %%g\n", (int)sizeof(E)*8, (int)((TY(E))-1 < 0), (double)(TY(E))0.5)
+static void pstr(const char *s) { size_t n = strlen(s); printf("e s "); for (size_t i = 0; i < n; i++) printf("%%02x", (unsigned char)s[i]); printf("\n"); }
+int main(void) {
+%(body)s
+  return 0;
+}
+'''
+
+
+def c_body(idx, sym):
+    """sym: dict(name, kind, shape, macro)"""
+    name, shape = sym["name"], sym["shape"]
+    ix = loops(shape)
+    elem = name + "".join("[%s]" % v for v in ix)
+    first = name + "".join("[0]" for _ in shape)
+    out = ['  printf("sym %d\\n");' % idx]
+    dims = []
+    cur = name
+    for _ in shape:
+        dims.append("sizeof(%s)/sizeof(%s[0])" % (cur, cur))
+        cur += "[0]"
+    out.append('  printf("dims%s\\n"%s);' % (" %zu" * len(dims), "".join(", " + d for d in dims)))
+    if sym["kind"] == "str":
+        out.append('  { const char *c19_t_ = %s; printf("type %%d 0 -1\\n", (int)sizeof(%s)*8); (void)c19_t_; }' % (first, first))
+        pr = "pstr(%s);" % elem
+    else:
+        out.append("  PTYPE(%s);" % first)
+        pr = "PNUM(%s);" % elem
+    pre = "".join("for (size_t %s = 0; %s < %d; %s++) " % (v, v, d, v) for v, d in zip(ix, shape))
+    out.append("  " + pre + "{ " + pr + " }")
+    return "\n".join(out)
+
+
+def parse_obs(out):
+    """common line protocol -> {idx: {dims, type, elems}}"""
+    res = {}
+    cur = None
+    for ln in out.splitlines():
+        f = ln.split(" ")
+        if f[0] == "sym":
+            cur = {"dims": None, "type": None, "elems": []}
+            res[int(f[1])] = cur
+        elif cur is None:
+            continue
+        elif f[0] == "dims":
+            cur["dims"] = [int(x) for x in f[1:] if x != ""]
+        elif f[0] == "type":
+            cur["type"] = f[1:]
+        elif f[0] == "e":
+            cur["elems"].append(f[1:])
+    return res
+
+
+def obs_c(o):
+    """observation of the C/C++ printer -> canonical dict"""
+    bits, signed, half = int(o["type"][0]), int(o["type"][1]), float(o["type"][2])
+    if half == -1:
+        kind, bits = "str", 0
+    elif half == 0.5:
+        kind = "float"
+    elif half == 1.0:
+        kind, bits = "bool", 0
+    else:
+        kind = "int" if signed else "uint"
+    elems = []
+    for e in o["elems"]:
+        if e[0] == "s":
+            elems.append(bytes.fromhex(e[1] if len(e) > 1 else "").decode("latin-1"))
+        elif e[0] == "f":
+            elems.append(float(e[1]))
+        else:
+            elems.append(int(e[1]))
+    if kind == "bool":
+        elems = [bool(x) for x in elems]
+    return {"kind": kind, "bits": bits, "shape": o["dims"], "elems": elems}
+
+
+def split_c(text):
+    """(header lines, body lines, footer lines) of an exported C/C++ header"""
+    ls = text.split("\n")
+    try:
+        end = max(i for i, l in enumerate(ls) if l.startswith("#endif"))
+    except ValueError:
+        return ls, [], []
+    start = 3
+    if len(ls) > 3 and ls[3].startswith("#include"):
+        start = 5
+    return ls[:start], ls[start:end - 1], ls[end - 1:]
+
+
+def run_c(workdir, tag, text, syms, cpp):
+    comp, ext = ("g++", "cpp") if cpp else ("gcc", "c")
+    hdr = os.path.join(workdir, "%s.h" % tag)
+    src = os.path.join(workdir, "%s_main.%s" % (tag, ext))
+    exe = os.path.join(workdir, "%s.x" % tag)
+    open(hdr, "w").write(text + "\n")
+    body = "\n".join(c_body(i, s) for i, s in syms)
+    open(src, "w").write(C_MAIN % {"header": os.path.basename(hdr), "body": body})
+    rc, out, err = sh([comp, "-w", "-Werror=int-conversion", "-o", exe, src], cwd=workdir)
+    if rc != 0:
+        return None, err
+    rc, out, err = sh([exe], cwd=workdir, timeout=20)
+    if rc != 0:
+        return None, "run failed"
+    return parse_obs(out), ""
+
+
+def read_c(workdir, tag, text, syms, cpp=False):
+    """syms: list of dict(name, kind, shape, macro).  Returns list of canonical observations or 'err'."""
+    ok = [(i, s) for i, s in enumerate(syms) if IDENT.match(s["name"])]
+    res = ["err"] * len(syms)
+    obs, err = run_c(workdir, tag, text, ok, cpp)
+    if obs is not None:
+        for i, s in ok:
+            res[i] = obs_c(obs[i]) if i in obs and obs[i]["type"] else "err"
+        return res
+    # one translation unit per declaration
+    head, body, foot = split_c(text)
+    if len(body) != len(syms):
+        return res
+    for i, s in ok:
+        one = "\n".join(head + [body[i]] + foot)
+        obs, err = run_c(workdir, "%s_%d" % (tag, i), one, [(i, s)], cpp)
+        if obs is not None and i in obs and obs[i]["type"]:
+            res[i] = obs_c(obs[i])
+    return res
+
+
+# ---------------------------------------------------------------- Fortran
+F_PRINTERS = r'''
+module c19_printers
+  implicit none
+  interface c19_pe
+    module procedure pe_i2, pe_i4, pe_i8, pe_r4, pe_r8, pe_r16, pe_l, pe_c
+  end interface
+contains
+  subroutine pe_i2(x)
+    integer(kind=2), intent(in) :: x
+    print '(A,1X,I0)', 'e int 16', x
+  end subroutine
+  subroutine pe_i4(x)
+    integer(kind=4), intent(in) :: x
+    print '(A,1X,I0)', 'e int 32', x
+  end subroutine
+  subroutine pe_i8(x)
+    integer(kind=8), intent(in) :: x
+    print '(A,1X,I0)', 'e int 64', x
+  end subroutine
+  subroutine pe_r4(x)
+    real(kind=4), intent(in) :: x
+    print '(A,1X,ES60.40E4)', 'e float 32', real(x, kind=16)
+  end subroutine
+  subroutine pe_r8(x)
+    real(kind=8), intent(in) :: x
+    print '(A,1X,ES60.40E4)', 'e float 64', real(x, kind=16)
+  end subroutine
+  subroutine pe_r16(x)
+    real(kind=16), intent(in) :: x
+    print '(A,1X,ES60.40E4)', 'e float 128', x
+  end subroutine
+  subroutine pe_l(x)
+    logical, intent(in) :: x
+    print '(A,1X,L1)', 'e bool 0', x
+  end subroutine
+  subroutine pe_c(x)
+    character(len=*), intent(in) :: x
+    integer :: i
+    write (*, '(A,1X,I0,1X)', advance='no') 'e str', len(x)
+    do i = 1, len(x)
+      write (*, '(Z2.2)', advance='no') ichar(x(i:i))
+    end do
+    print *
+  end subroutine
+end module c19_printers
+'''
+
+
+def f_body(idx, sym):
+    name, shape = sym["name"], sym["shape"]
+    ix = loops(shape)
+    out = ["  print '(A)', 'sym %d'" % idx]
+    if shape:
+        out.append("  print '(A,*(1X,I0))', 'dims', shape(%s)" % name)
+        elem = "%s(%s)" % (name, ",".join(ix))
+    else:
+        out.append("  print '(A,1X,I0)', 'rank', rank(%s)" % name)
+        elem = name
+    for v, d in zip(ix, shape):
+        out.append("  do %s = 1, %d" % (v, d))
+    out.append("  call c19_pe(%s)" % elem)
+    for _ in shape:
+        out.append("  end do")
+    return "\n".join(out)
+
+
+def run_f(workdir, tag, text, syms, module):
+    src = os.path.join(workdir, "%s.f90" % tag)
+    exe = os.path.join(workdir, "%s.x" % tag)
+    body = "\n".join(f_body(i, s) for i, s in syms)
+    prog = "program c19_main\n  use c19_printers\n  use %s\n  implicit none\n  integer :: c19_i0, c19_i1, c19_i2, c19_i3\n%s\nend program\n" % (module, body)
+    open(src, "w").write(text + "\n" + F_PRINTERS + prog)
+    rc, out, err = sh(["gfortran", "-w", "-ffree-line-length-none", "-J", os.path.join(workdir, tag + "_mod"), "-o", exe, src],
+                      cwd=workdir)
+    if rc != 0:
+        return None, err
+    rc, out, err = sh([exe], cwd=workdir, timeout=20)
+    if rc != 0:
+        return None, "run failed"
+    res = {}
+    cur = None
+    for ln in out.splitlines():
+        f = ln.split()
+        if not f:
+            continue
+        if f[0] == "sym":
+            cur = {"dims": [], "kinds": set(), "elems": [], "rank": None}
+            res[int(f[1])] = cur
+        elif cur is None:
+            continue
+        elif f[0] == "dims":
+            cur["dims"] = [int(x) for x in f[1:]]
+        elif f[0] == "rank":
+            cur["rank"] = int(f[1])
+        elif f[0] == "e":
+            kind, bits = f[1], int(f[2])
+            if kind == "str":
+                n = int(f[2])
+                cur["kinds"].add(("str", 0))
+                cur["elems"].append(bytes.fromhex(f[3] if len(f) > 3 else "").decode("latin-1"))
+            else:
+                cur["kinds"].add((kind, bits))
+                if kind == "int":
+                    cur["elems"].append(int(f[3]))
+                elif kind == "float":
+                    cur["elems"].append(float(f[3]))
+                else:
+                    cur["elems"].append(f[3] == "T")
+    return res, ""
+
+
+def obs_f(o):
+    if len(o["kinds"]) != 1 or (o["rank"] not in (None, 0)):
+        return "err"
+    kind, bits = list(o["kinds"])[0]
+    return {"kind": kind, "bits": bits, "shape": o["dims"], "elems": o["elems"]}
+
+
+def read_fortran(workdir, tag, text, syms, module):
+    ok = [(i, s) for i, s in enumerate(syms) if IDENT.match(s["name"])]
+    res = ["err"] * len(syms)
+    os.makedirs(os.path.join(workdir, tag + "_mod"), exist_ok=True)
+    if not IDENT.match(module):
+        return res
+    obs, err = run_f(workdir, tag, text, ok, module)
+    if obs is not None:
+        for i, s in ok:
+            res[i] = obs_f(obs[i]) if i in obs else "err"
+        return res
+    ls = text.split("\n")
+    head, body, foot = ls[:3], ls[3:-2], ls[-2:]
+    if len(body) != len(syms):
+        return res
+    for i, s in ok:
+        one = "\n".join(head + [body[i]] + foot)
+        t2 = "%s_%d" % (tag, i)
+        os.makedirs(os.path.join(workdir, t2 + "_mod"), exist_ok=True)
+        obs, err = run_f(workdir, t2, one, [(i, s)], module)
+        if obs is not None and i in obs:
+            res[i] = obs_f(obs[i])
+    return res
+
+
+# ---------------------------------------------------------------- Rust
+R_MAIN = r'''
+#![allow(warnings)]
+include!("%(file)s");
+trait C19P { fn c19_p(&self); }
+macro_rules! c19_pint { ($($t:ty),*) => { $(impl C19P for $t { fn c19_p(&self) { println!("e {} {}", stringify!($t), self); } })* } }
+c19_pint!(i8, i16, i32, i64, i128, u8, u16, u32, u64, u128);
+impl C19P for bool { fn c19_p(&self) { println!("e bool {}", self); } }
+impl C19P for f32 { fn c19_p(&self) { println!("e f32 {:?}", *self as f64); } }
+impl C19P for f64 { fn c19_p(&self) { println!("e f64 {:?}", self); } }
+impl C19P for &str { fn c19_p(&self) { print!("e str "); for c19_b in self.bytes() { print!("{:02x}", c19_b); } println!(); } }
+impl<C19T: C19P, const C19N: usize> C19P for [C19T; C19N] { fn c19_p(&self) { println!("open {}", C19N); for c19_x in self.iter() { c19_x.c19_p(); } println!("close"); } }
+fn main() {
+%(body)s
+}
+'''
+
+
+def run_rust(workdir, tag, text, syms):
+    cfg = os.path.join(workdir, "%s_cfg.rs" % tag)
+    src = os.path.join(workdir, "%s_main.rs" % tag)
+    exe = os.path.join(workdir, "%s.x" % tag)
+    open(cfg, "w").write(text + "\n")
+    body = "\n".join('  println!("sym %d"); println!("size {}", std::mem::size_of_val(&%s)); %s.c19_p();' % (i, s["name"], s["name"])
+                     for i, s in syms)
+    open(src, "w").write(R_MAIN % {"file": os.path.basename(cfg), "body": body})
+    rc, out, err = sh(["rustc", "--edition", "2021", "-C", "debuginfo=0", "-C", "opt-level=0", "-o", exe, src], cwd=workdir)
+    if rc != 0:
+        return None, err
+    rc, out, err = sh([exe], cwd=workdir, timeout=20)
+    if rc != 0:
+        return None, "run failed"
+    res = {}
+    cur = None
+    for ln in out.splitlines():
+        f = ln.split(" ")
+        if f[0] == "sym":
+            cur = {"stack": [[]], "types": set(), "size": None}
+            res[int(f[1])] = cur
+        elif cur is None:
+            continue
+        elif f[0] == "size":
+            cur["size"] = int(f[1])
+        elif f[0] == "open":
+            cur["stack"].append([])
+        elif f[0] == "close":
+            top = cur["stack"].pop()
+            cur["stack"][-1].append(top)
+        elif f[0] == "e":
+            t = f[1]
+            cur["types"].add(t)
+            if t == "str":
+                v = bytes.fromhex(f[2] if len(f) > 2 else "").decode("latin-1")
+            elif t == "bool":
+                v = f[2] == "true"
+            elif t in ("f32", "f64"):
+                v = float(f[2])
+            else:
+                v = int(f[2])
+            cur["stack"][-1].append(v)
+    return res, ""
+
+
+def obs_rust(o):
+    if len(o["types"]) != 1 or len(o["stack"]) != 1 or len(o["stack"][0]) != 1:
+        return "err"
+    t = list(o["types"])[0]
+    v = o["stack"][0][0]
+    kind, bits = {"str": ("str", 0), "bool": ("bool", 0), "f32": ("float", 32), "f64": ("float", 64)}.get(t, (None, None))
+    if kind is None:
+        kind, bits = ("int" if t[0] == "i" else "uint"), int(t[1:])
+    try:
+        shape = list(np.shape(np.array(v, dtype=object))) if isinstance(v, list) else []
+    except Exception:
+        return "err"
+    p = P("", kind, bits, v, None, None)
+    return {"kind": kind, "bits": bits, "shape": shape, "elems": p.flat()}
+
+
+def read_rust(workdir, tag, text, syms):
+    ok = [(i, s) for i, s in enumerate(syms) if IDENT.match(s["name"])]
+    res = ["err"] * len(syms)
+    obs, err = run_rust(workdir, tag, text, ok)
+    if obs is not None:
+        for i, s in ok:
+            res[i] = obs_rust(obs[i]) if i in obs else "err"
+        return res
+    body = text.split("\n")
+    if len(body) != len(syms):
+        return res
+    for i, s in ok:
+        obs, err = run_rust(workdir, "%s_%d" % (tag, i), body[i], [(i, s)])
+        if obs is not None and i in obs:
+            res[i] = obs_rust(obs[i])
+    return res
+
+
+# ---------------------------------------------------------------- Bash
+def bash_chunks(text):
+    """the lines of each parameter: `declare -A N` + its `N[..]=` lines + `export N`, else one line"""
+    chunks = []
+    for ln in text.split("\n"):
+        if ln.startswith("declare -A "):
+            chunks.append([ln])
+        elif chunks and chunks[-1][0].startswith("declare -A ") and (
+                ln.startswith(chunks[-1][0][len("declare -A "):] + "[") or ln == "export " + chunks[-1][0][len("declare -A "):]):
+            chunks[-1].append(ln)
+        else:
+            chunks.append([ln])
+    return chunks
+
+
+def read_bash(workdir, tag, text, syms):
+    """returns per symbol {'attr': str, 'items': {key: value}} or 'err'.  Every parameter's lines are sourced in
+    their own subshell, so a parameter that breaks the file (unbalanced quote) is not blamed on its neighbours."""
+    chunks = bash_chunks(text) if text else []
+    whole = len(chunks) != len(syms)
+    lines = ["PATH=/nonexistent"]
+    ok = [(i, s) for i, s in enumerate(syms) if IDENT.match(s["name"])]
+    if whole:
+        cfg = os.path.join(workdir, "%s.sh" % tag)
+        open(cfg, "w").write(text + "\n")
+        lines.append("source ./%s 2>/dev/null" % os.path.basename(cfg))
+    for i, s in ok:
+        n = s["name"]
+        if not whole:
+            cfg = os.path.join(workdir, "%s_%d.sh" % (tag, i))
+            open(cfg, "w").write("\n".join(chunks[i]) + "\n")
+            lines.append("( source ./%s 2>/dev/null" % os.path.basename(cfg))
+        lines.append("printf 'sym\\0%%s\\0attr\\0%%s\\0' %d \"${%s@a}\"" % (i, n))
+        lines.append("for c19_k_ in \"${!%s[@]}\"; do printf 'k\\0%%s\\0v\\0%%s\\0' \"$c19_k_\" \"${%s[$c19_k_]}\"; done" % (n, n))
+        if not whole:
+            lines.append(")")
+    script = os.path.join(workdir, "%s_main.sh" % tag)
+    open(script, "w").write("\n".join(lines) + "\n")
+    p = subprocess.run(["bash", "--norc", "--noprofile", script], cwd=workdir, stdout=subprocess.PIPE,
+                       stderr=subprocess.DEVNULL, timeout=30, env={"PATH": "/usr/bin:/bin"})
+    toks = p.stdout.decode("latin-1").split("\0")
+    res = ["err"] * len(syms)
+    cur = None
+    j = 0
+    while j < len(toks) - 1:
+        t = toks[j]
+        if t == "sym":
+            cur = {"attr": "", "items": {}}
+            res[int(toks[j + 1])] = cur
+            j += 2
+        elif t == "attr" and cur is not None:
+            cur["attr"] = toks[j + 1]
+            j += 2
+        elif t == "k" and cur is not None and j + 3 < len(toks):
+            cur["items"][toks[j + 1]] = toks[j + 3]
+            j += 4
+        else:
+            j += 1
+    return res
+
+
+# =============================================================== one case = (environment, back-end, options)
+TYPED = ("c", "cpp", "fortran", "rust")
+DATA = ("json", "yaml", "toml")
+LACKING = {("rust", "float", 128): ("float", 64)}     # documented: "exported as 64 bit variables"
+F32_MAX = 3.4028234663852886e38
+F32_MIN = 1.1754943508222875e-38
+
+
+def real_export(env, backend, opts, query, tags):
+    from scinumtools.dip import config as cfg
+    cls = {"c": cfg.ExportConfigC, "cpp": cfg.ExportConfigCPP, "fortran": cfg.ExportConfigFortran,
+           "rust": cfg.ExportConfigRust, "bash": cfg.ExportConfigBash, "json": cfg.ExportConfigJSON,
+           "yaml": cfg.ExportConfigYAML, "toml": cfg.ExportConfigTOML, "dip": cfg.ExportConfig}[backend]
+    kw = {}
+    if "rename" in opts:
+        kw["rename"] = opts["rename"]
+    pk = {}
+    for k in ("guard", "define", "const", "module", "export", "units"):
+        if k in opts:
+            pk[k] = opts[k]
+    try:
+        with cls(env, **kw) as e:
+            if query is not None or tags is not None:
+                e.select(query=query, tags=tags)
+            keys = list(e.data.keys())
+            text = e.parse(**pk)
+        return keys, text
+    except Exception as ex:
+        return None, "raised %s" % type(ex).__name__
+
+
+def spec_select(ps, query, tags):
+    """What the documentation says a query / tag selection exports (name relative to the query)."""
+    out = []
+    for p in ps:
+        if query is None or query == "*":
+            name = p.name
+        elif query.endswith(".*"):
+            if not p.name.startswith(query[:-1]):
+                continue
+            name = p.name[len(query) - 1:]
+        else:
+            if p.name != query:
+                continue
+            name = p.name.split(".")[-1]
+        if tags and not any(t in (p.tags or []) for t in tags):
+            continue
+        out.append(P(name, p.kind, p.bits, p.value, p.unit, p.tags))
+    return out
+
+
+def fclose(a, b, bits):
+    if a == b:
+        return True
+    if not (math.isfinite(a) and math.isfinite(b)):
+        return False
+    tol = 1.5e-7 if bits == 32 else 1e-15
+    return abs(a - b) <= tol * max(abs(a), abs(b)) + (3e-45 if bits == 32 else 0.0)
+
+
+def elems_equal(kind, bits, exp, obs, pad=False):
+    if len(exp) != len(obs):
+        return False
+    for a, b in zip(exp, obs):
+        if kind == "float":
+            if not isinstance(b, float) or not fclose(a, b, bits):
+                return False
+        elif kind == "str":
+            if not isinstance(b, str) or (a.rstrip(" ") != b.rstrip(" ") if pad else a != b):
+                return False
+        elif kind == "bool":
+            if not isinstance(b, bool) or a != b:
+                return False
+        else:
+            if isinstance(b, bool) or not isinstance(b, int) or a != b:
+                return False
+    return True
+
+
+def judge_typed(backend, p, macro, obs):
+    """None when the observation meets the property for parameter p, else a short reason."""
+    if obs == "err":
+        return "compile-error"
+    kind, bits = p.kind, p.bits
+    ekind, ebits = LACKING.get((backend, kind, bits), (kind, bits))
+    if macro:
+        # a preprocessor definition has no declared type: only the value is compared (booleans are 1 / 0)
+        exp = [int(x) if kind == "bool" else x for x in p.flat()]
+        k2 = "int" if kind in ("bool", "uint") else kind
+        ob = obs["elems"]
+        if kind == "float" and ob and isinstance(ob[0], int):
+            ob = [float(x) for x in ob]
+        return None if obs["shape"] == [] and elems_equal(k2, 64, exp, ob) else "value"
+    if obs["shape"] != p.shape():
+        return "shape"
+    if obs["kind"] != ekind or (ekind in ("int", "uint", "float") and obs["bits"] != ebits):
+        return "type"
+    if not elems_equal(kind, ebits, p.flat(), obs["elems"], pad=(backend == "fortran")):
+        return "value"
+    return None
+
+
+def classify(backend, p, reason, obs):
+    """Stable signature of a failing (back-end, parameter) class."""
+    flat = p.flat()
+    if backend == "dip" and isinstance(p.value, list):
+        return "dip:array"
+    if p.kind == "str":
+        if any('"' in s for s in flat):
+            return "%s:string-with-quote" % backend
+        if any("\\" in s for s in flat) and backend != "fortran":
+            return "%s:string-with-backslash" % backend
+        if backend == "bash" and any(c in s for s in flat for c in "$`!"):
+            return "bash:string-with-expansion"
+        if backend == "fortran" and len({len(s) for s in flat}) > 1:
+            return "fortran:str-array-different-lengths"
+    if backend == "fortran":
+        if p.kind == "uint":
+            if reason == "type" or (reason == "compile-error" and any(v >= 2 ** (p.bits - 1) or v > 2 ** 31 - 1 for v in flat)):
+                return "fortran:unsigned"
+        if p.kind == "int" and reason == "compile-error" and any(abs(v) > 2 ** 31 - 1 for v in flat):
+            return "fortran:int-literal-kind"
+        if p.kind == "float" and p.bits > 32:
+            lossy = [v for v in flat if not fclose(v, float(np.float32(v)), 64)]
+            if lossy:
+                over = any(abs(v) > F32_MAX or 0 < abs(v) < F32_MIN for v in flat)
+                if reason == "compile-error" and over:
+                    return "fortran:real-literal-kind"
+                if reason == "value" and obs != "err" and all(
+                        isinstance(o, float) and fclose(o, float(np.float32(v)), 32) for v, o in zip(flat, obs["elems"])):
+                    return "fortran:real-literal-kind"
+    if backend == "dip" and isinstance(p.value, list):
+        return "dip:array"
+    rank = len(p.shape())
+    return "%s:%s%s:%s:%s" % (backend, p.kind, p.bits or "", "scalar" if rank == 0 else ("rank1" if rank == 1 else "rank>=2"), reason)
+
+
+def model_sym_canon(backend, s, info):
+    """Lean reader result -> the canonical observation the real tool should produce."""
+    decl = s["decl"]
+    macro = decl == "macro"
+    flat = []
+
+    def rec(v):
+        if isinstance(v, list):
+            for x in v:
+                rec(x)
+        else:
+            flat.append(v)
+    rec(s["value"])
+    vals = []
+    for v in flat:
+        if isinstance(v, dict) and "f" in v:
+            vals.append(float(v["f"]))
+        elif isinstance(v, dict):
+            vals.append(v["s"])
+        else:
+            vals.append(v)
+    if macro:
+        return {"macro": True, "shape": s["shape"], "elems": vals}
+    if backend == "fortran" and decl.startswith("character"):
+        kind, bits = "str", 0
+    else:
+        kind, bits = info.get((backend, decl), (None, None))
+    if kind == "float":
+        if s["narrow"]:
+            if any(abs(v) > F32_MAX for v in vals):
+                return "err"                 # gfortran: real constant overflows its kind
+            vals = [float(np.float32(v)) for v in vals]
+        if bits == 32:
+            vals = [float(np.float32(v)) for v in vals]
+    return {"kind": kind, "bits": bits, "shape": s["shape"], "elems": vals,
+            "tolbits": 32 if (kind == "float" and (bits == 32 or s["narrow"])) else 64}
+
+
+def same_obs(backend, m, o):
+    """reader model prediction vs real tool observation"""
+    if m == "err" or o == "err":
+        return m == o
+    if m.get("macro"):
+        ob = o["elems"]
+        me = [int(x) if isinstance(x, bool) else x for x in m["elems"]]
+        if me and isinstance(me[0], float):
+            ob = [float(x) for x in ob]
+        return o["shape"] == [] and len(me) == len(ob) and all(
+            (fclose(a, b, 64) if isinstance(a, float) and isinstance(b, float) else a == b) for a, b in zip(me, ob))
+    if m["kind"] != o["kind"] or m["shape"] != o["shape"]:
+        return False
+    if m["kind"] in ("int", "uint", "float") and m["bits"] != o["bits"]:
+        return False
+    return elems_equal(m["kind"], m.get("tolbits", 64), m["elems"], o["elems"],
+                       pad=(backend == "fortran"))
+
+
+# =============================================================== correspondence
+class Case:
+    def __init__(self, src, env, ps, backend, opts, query=None, tags=None, origin="gen"):
+        self.src, self.env, self.ps, self.backend, self.opts = src, env, ps, backend, opts
+        self.query, self.tags, self.origin = query, tags, origin
+
+    def request(self):
+        return {"p": "C19", "k": "case", "backend": self.backend, "env": [p.model() for p in self.ps],
+                "query": self.query, "tags": self.tags, "opts": self.opts}
+
+    def replay(self, **extra):
+        r = {"source": self.src, "backend": self.backend, "opts": self.opts, "query": self.query, "tags": self.tags}
+        r.update(extra)
+        return r
+
+
+def gen_options(rng, backend, sel):
+    """sel: selected parameters (relative names)"""
+    scalars = [p.name for p in sel if not isinstance(p.value, list)]
+    flat = all(IDENT.match(p.name) for p in sel)
+    o = {}
+    if backend in ("c", "cpp", "fortran", "rust", "bash"):
+        o["rename"] = not (flat and rng.random() < 0.3)
+    if backend in ("c", "cpp"):
+        if rng.random() < 0.4:
+            o["guard"] = rng.choice(["CONFIG_H", "MY_GUARD", "SETTINGS_HPP_"])
+        k = rng.choice([0, 0, 1, 2])
+        o["define"] = rng.sample(scalars, min(k, len(scalars)))
+        if backend == "cpp":
+            rest = [p.name for p in sel if p.name not in o["define"]]
+            o["const"] = rng.sample(rest, min(rng.choice([0, 1, 2]), len(rest)))
+    if backend == "fortran" and rng.random() < 0.3:
+        o["module"] = rng.choice(["ConfigurationModule", "settings_mod"])
+    if backend == "bash":
+        o["export"] = rng.random() < 0.6
+    if backend in DATA:
+        o["units"] = rng.random() < 0.6
+    return o
+
+
+def gen_selection(rng, ps):
+    r = rng.random()
+    if r < 0.6:
+        return None, None
+    prefixes = sorted({p.name.rsplit(".", 1)[0] for p in ps if "." in p.name})
+    q = None
+    if r < 0.75 and prefixes:
+        q = rng.choice(prefixes) + ".*"
+    elif r < 0.85:
+        q = rng.choice(ps).name
+    elif r < 0.9:
+        q = "*"
+    t = None
+    if rng.random() < 0.5 or q is None:
+        t = [rng.choice(["t1", "t2"])]
+    return q, t
+
+
+BACKENDS = ["c", "cpp", "fortran", "rust", "bash", "json", "yaml", "toml", "dip"]
+
+
+def corpus_cases(dip_types):
+    """Recon inputs and past failures: exercised first on every run."""
+    out = []
+    path = core.VERIF / "corpus" / "C19" / "cases.json"
+    if path.exists():
+        for c in json.loads(path.read_text()):
+            r = parse_env(c["source"])
+            if r is None:
+                continue
+            for b in c["backends"]:
+                out.append(Case(c["source"], r[0], r[1], b, dict(c.get("opts", {}).get(b, {})), c.get("query"), c.get("tags"),
+                                origin="corpus:" + c["id"]))
+    return out
+
+
+def run_cases(ctx, cases, workers=12):
+    info = target_info()
+    work = tmpdir()
+    reqs = [c.request() for c in cases]
+    res = ctx.driver.ask_many(reqs) if reqs else []
+    impl = [real_export(c.env, c.backend, c.opts, c.query, c.tags) for c in cases]
+
+    def real_read(i):
+        c = cases[i]
+        keys, text = impl[i]
+        if keys is None:
+            return None
+        sel = spec_select(c.ps, c.query, c.tags)
+        b = c.backend
+        ren = c.opts.get("rename", True)
+        tag = "k%d" % i
+        if b in TYPED or b == "bash":
+            syms = [{"name": py_rename(p.name, ren), "kind": p.kind, "shape": p.shape(),
+                     "macro": p.name in c.opts.get("define", [])} for p in sel]
+            if len({s["name"] for s in syms}) != len(syms):
+                return "collision"
+            if b == "c":
+                return read_c(work, tag, text, syms)
+            if b == "cpp":
+                return read_c(work, tag, text, syms, cpp=True)
+            if b == "fortran":
+                return read_fortran(work, tag, text, syms, c.opts.get("module", "ConfigurationModule"))
+            if b == "rust":
+                return read_rust(work, tag, text, syms)
+            return read_bash(work, tag, text, syms)
+        try:
+            if b == "json":
+                return json.loads(text)
+            if b == "yaml":
+                import yaml
+                return yaml.safe_load(text) if text else {}
+            if b == "toml":
+                import tomllib                 # the standard-library reader (TOML 1.0)
+                return tomllib.loads(text)
+        except Exception as ex:
+            return "err"
+        return None
+    with ThreadPoolExecutor(workers) as ex:
+        observed = list(ex.map(real_read, range(len(cases))))
+    for i, c in enumerate(cases):
+        judge_case(ctx, c, res[i], impl[i], observed[i], info)
+
+
+def judge_case(ctx, c, r, impl, observed, info):
+    b = c.backend
+    keys, text = impl
+    sel = spec_select(c.ps, c.query, c.tags)
+    ctx.count("backend." + b)
+    if c.query is not None or c.tags is not None:
+        ctx.count("selection")
+    nontriv = any(isinstance(p.value, list) for p in sel) or len(sel) >= 3
+    ctx.case([c.src, b, c.opts, c.query, c.tags], nontriv,
+             {"backend": b, "opts": c.opts, "query": c.query, "tags": c.tags, "params": [p.brief() for p in sel][:4]})
+    if "ok" not in r:
+        ctx.disagreement("driver", c.replay(), "driver error %s" % (r,))
+        return
+    m = r["ok"]
+    # ---- selection: impl vs documented selection (oracle), impl vs model
+    if keys is not None:
+        if keys != [p.name for p in sel]:
+            ctx.violation("select:%s" % ("query" if c.query else "tags"),
+                          "selection query=%r tags=%r exports %s, documented selection is %s" %
+                          (c.query, c.tags, keys, [p.name for p in sel]), c.replay(impl_keys=keys))
+        if keys != m["selected"]:
+            ctx.disagreement("select", c.replay(), "impl %s model %s" % (keys, m["selected"]))
+    has_dip_array = b == "dip" and any(isinstance(p.value, list) for p in sel)
+    # ---- (i) exporter model vs real exporter: equal as strings
+    if b not in DATA and not has_dip_array:
+        mt = m["text"]
+        it = text if keys is not None else None
+        if mt != it:
+            ctx.disagreement("export:" + b, c.replay(), "impl %r model %r" % (it if it is not None else text, mt))
+    if keys is None:
+        if has_dip_array:
+            p = next(p for p in sel if isinstance(p.value, list))
+            ctx.violation(classify(b, p, "raises", "err"), "DIP export of array parameter %s: %s" % (p.name, text),
+                          c.replay(param=p.brief()))
+        elif m["text"] is not None or b in DATA:
+            ctx.violation("%s:export-raises" % b, "export raises: %s" % text, c.replay())
+        return
+    if b in TYPED:
+        judge_typed_case(ctx, c, m, sel, observed, info)
+    elif b == "bash":
+        judge_bash_case(ctx, c, m, sel, observed)
+    elif b in DATA:
+        judge_data_case(ctx, c, m, sel, observed)
+    else:
+        judge_dip_case(ctx, c, m, sel, text)
+
+
+def judge_typed_case(ctx, c, m, sel, observed, info):
+    b = c.backend
+    ren = c.opts.get("rename", True)
+    define = c.opts.get("define", [])
+    if observed == "collision":
+        ctx.violation("rename:collision", "two selected parameters are exported under one symbol name",
+                      c.replay(names=[p.name for p in sel]))
+        return
+    # Lean specification vs the environment (both must describe the same expectation)
+    spec = m["spec"]
+    if spec is None or len(spec) != len(sel):
+        if True:
+            ctx.disagreement("spec:" + b, c.replay(), "Lean specification undefined for %s" % [p.name for p in sel])
+    else:
+        for p, s in zip(sel, spec):
+            macro = s["decl"] == "macro"
+            want = [int(x) if (p.kind == "bool" and macro) else x for x in p.flat()]
+            got = P("", p.kind, p.bits, py_value(s["value"]), None, None).flat()
+            ekind, ebits = LACKING.get((b, p.kind, p.bits), (p.kind, p.bits))
+            dk = (None, None) if macro else info.get((b, s["decl"]), ("str", 0) if s["decl"].startswith("character") else (None, None))
+            type_ok = macro or (dk[0] == ekind and (ekind in ("bool", "str") or dk[1] == ebits)) or \
+                (b == "fortran" and p.kind == "uint")
+            if s["name"] != py_rename(p.name, ren) or s["shape"] != p.shape() or s["narrow"] or not type_ok or \
+                    not deep_equal(want, got):
+                ctx.disagreement("spec:" + b, c.replay(), "Lean spec %s vs environment %s" % (s, p.brief()))
+    # (ii) reader model vs real tool
+    rd = m["read"]
+    if rd is not None and len(rd) == len(sel):
+        ctx.count("reader-validated." + b, len(rd))
+        for p, s, o in zip(sel, rd, observed):
+            if not IDENT.match(py_rename(p.name, ren)):
+                continue
+            pred = model_sym_canon(b, s, info)
+            if not same_obs(b, pred, o):
+                ctx.disagreement("reader:" + b, c.replay(param=p.brief()), "reader model %s, real tool %s" % (pred, o))
+    elif rd is None:
+        ctx.count("reader-not-covered." + b)
+    # (iii) oracle: real tool vs environment
+    for p, o in zip(sel, observed):
+        if not IDENT.match(py_rename(p.name, ren)):
+            ctx.count("skipped.non-identifier-name")
+            continue
+        reason = judge_typed(b, p, p.name in define, o)
+        if reason:
+            ctx.violation(classify(b, p, reason, o),
+                          "%s export of %s %s%s = %r: the compiled file gives %s (%s)" %
+                          (b, p.name, p.kind, p.bits or "", p.value, o, reason),
+                          c.replay(param=p.brief(), observed=o, reason=reason))
+
+
+def judge_bash_case(ctx, c, m, sel, observed):
+    ren = c.opts.get("rename", True)
+    exp_flag = c.opts.get("export", True)
+    if observed == "collision":
+        ctx.violation("rename:collision", "two selected parameters are exported under one symbol name",
+                      c.replay(names=[p.name for p in sel]))
+        return
+
+    def expected_items(p):
+        sh = p.shape()
+        items = {}
+
+        def rec(v, coord):
+            if isinstance(v, list):
+                for i, x in enumerate(v):
+                    rec(x, coord + [i])
+            else:
+                items[",".join(map(str, coord)) if coord else "0"] = v
+        rec(p.value, [])
+        return items
+
+    def value_ok(p, v, s):
+        if p.kind == "bool":
+            return s == ("0" if v else "-1")
+        if p.kind in ("int", "uint"):
+            return re.fullmatch(r"-?[0-9]+", s) is not None and int(s) == v
+        if p.kind == "float":
+            try:
+                return float(s) == v
+            except ValueError:
+                return False
+        return s == v
+    spec = m["spec"]
+    rd = m["read"]
+    for idx, (p, o) in enumerate(zip(sel, observed)):
+        name = py_rename(p.name, ren)
+        if not IDENT.match(name):
+            continue
+        exp = expected_items(p)
+        rank = len(p.shape())
+        # Lean spec vs environment
+        s = spec[idx]
+        sitems = {(k if k else "0"): v for k, v in s["items"]}
+        if s["name"] != name or set(sitems) != set(exp) or not all(value_ok(p, exp[k], sitems[k]) for k in exp):
+            ctx.disagreement("spec:bash", c.replay(), "Lean spec %s vs environment %s" % (s, p.brief()))
+        # reader model vs bash
+        if rd is not None:
+            mr = next((x for x in rd if x["name"] == name), None)
+            if mr is None or o == "err":
+                ctx.disagreement("reader:bash", c.replay(param=p.brief()), "reader model %s, bash %s" % (mr, o))
+            else:
+                mitems = {(k if k else "0"): v for k, v in mr["items"]}
+                mattr = {"scalar": "", "indexed": "a", "assoc": "A"}[mr["kind"]] + ("x" if mr["exported"] else "")
+                if mitems != o["items"] or sorted(mattr) != sorted(o["attr"]):
+                    ctx.disagreement("reader:bash", c.replay(param=p.brief()), "reader model %s, bash %s" % (mr, o))
+        # oracle
+        reason = None
+        if o == "err":
+            reason = "unset"
+        else:
+            want_attr = ("a" if rank == 1 else "A" if rank > 1 else "") + ("x" if exp_flag else "")
+            if set(o["items"]) != set(exp):
+                reason = "shape"
+            elif not all(value_ok(p, exp[k], o["items"][k]) for k in exp):
+                reason = "value"
+            elif sorted(o["attr"]) != sorted(want_attr):
+                reason = "type"
+        if reason:
+            ctx.violation(classify("bash", p, reason, o),
+                          "bash export of %s %s = %r: after sourcing the file bash holds %s (%s)" %
+                          (p.name, p.kind, p.value, o, reason), c.replay(param=p.brief(), observed=o, reason=reason))
+    if rd is not None:
+        ctx.count("reader-validated.bash", len(sel))
+    else:
+        ctx.count("reader-not-covered.bash")
+
+
+def py_value(v):
+    """model value JSON -> python"""
+    if isinstance(v, list):
+        return [py_value(x) for x in v]
+    if isinstance(v, dict):
+        return float(v["f"]) if "f" in v else v["s"]
+    return v
+
+
+def judge_data_case(ctx, c, m, sel, observed):
+    b = c.backend
+    units = c.opts.get("units", True)
+    exp = {}
+    for p in sel:
+        if p.kind in ("int", "uint", "float") and p.unit is not None and units:
+            exp[p.name] = {"value": p.value, "unit": p.unit}
+        else:
+            exp[p.name] = p.value
+    # shaping model (= Lean spec) vs environment
+    shaped = {}
+    for name, s in m["spec"]:
+        shaped[name] = py_value(s["bare"]) if "bare" in s else {"value": py_value(s["value"]), "unit": s["unit"]}
+    if not deep_equal(shaped, exp):
+        ctx.disagreement("shape:" + b, c.replay(), "model %s environment %s" % (shaped, exp))
+    if observed == "err" or not isinstance(observed, dict):
+        ctx.violation("%s:loader-error" % b, "%s export cannot be loaded" % b, c.replay())
+        return
+    for p in sel:
+        if p.name not in observed or not deep_equal(observed[p.name], exp[p.name]):
+            ctx.violation("%s:%s%s:%s" % (b, p.kind, p.bits or "", "array" if isinstance(p.value, list) else "scalar"),
+                          "%s export of %s = %r loads as %r" % (b, p.name, exp[p.name], observed.get(p.name)),
+                          c.replay(param=p.brief(), observed=observed.get(p.name)))
+    extra = [k for k in observed if k not in exp]
+    if extra:
+        ctx.violation("%s:extra-keys" % b, "%s export defines unselected keys %s" % (b, extra), c.replay())
+
+
+def deep_equal(a, b):
+    if isinstance(a, dict) or isinstance(b, dict):
+        return isinstance(a, dict) and isinstance(b, dict) and set(a) == set(b) and all(deep_equal(a[k], b[k]) for k in a)
+    if isinstance(a, list) or isinstance(b, list):
+        return isinstance(a, list) and isinstance(b, list) and len(a) == len(b) and all(deep_equal(x, y) for x, y in zip(a, b))
+    if isinstance(a, bool) or isinstance(b, bool):
+        return isinstance(a, bool) and isinstance(b, bool) and a == b
+    if isinstance(a, float) or isinstance(b, float):
+        return isinstance(a, float) and isinstance(b, float) and a == b
+    return type(a) == type(b) and a == b
+
+
+def judge_dip_case(ctx, c, m, sel, text):
+    """DIP text export re-read by the real DIP parser (trusted reader)."""
+    r = parse_env(text + "\n") if text else (None, [])
+    if r is None:
+        back = None
+    else:
+        back = {p.name: p for p in r[1]}
+    for p in sel:
+        if isinstance(p.value, list):
+            q = back.get(p.name) if back else None
+            if q is None or q.value != p.value:
+                ctx.violation(classify("dip", p, "value", "err"),
+                              "DIP export of array %s = %r re-reads as %r" % (p.name, p.value, q.value if q else None),
+                              c.replay(param=p.brief()))
+            continue
+        q = back.get(p.name) if back else None
+        if q is None or (q.kind, q.bits, q.unit) != (p.kind, p.bits, p.unit) or not deep_equal(q.value, p.value):
+            reason = "unreadable" if q is None else "value"
+            ctx.violation(classify("dip", p, reason, "err"),
+                          "DIP export of %s %s%s = %r %s re-reads as %s" %
+                          (p.name, p.kind, p.bits or "", p.value, p.unit, q.brief() if q else None),
+                          c.replay(param=p.brief(), reread=q.brief() if q else None))
+
+
+def correspond(ctx: Ctx):
+    np.seterr(all="ignore")
+    thorough = ctx.tier == "thorough"
+    rng = ctx.rng
+    dip_types = probe_dip_types()
+    cases = corpus_cases(dip_types)
+    n_env = 600 if thorough else 30
+    envs = []
+    for k in range(n_env):
+        special = rng.random() < 0.25
+        specs = gen_specs(rng, dip_types, rng.randint(1, 7), special=special)
+        src = dip_source(specs)
+        r = parse_env(src)
+        if r is None:
+            ctx.count("skipped.env-rejected-by-parser")
+            continue
+        ctx.count("environments")
+        envs.append((src, r[0], r[1]))
+    for src, env, ps in envs:
+        for b in BACKENDS:
+            reps = 2 if (thorough and b in ("c", "cpp", "bash")) else 1
+            for _ in range(reps):
+                q, t = gen_selection(rng, ps)
+                sel = spec_select(ps, q, t)
+                cases.append(Case(src, env, ps, b, gen_options(rng, b, sel), q, t))
+    for i in range(0, len(cases), 400):
+        run_cases(ctx, cases[i:i + 400])
+    ctx.extra["compilers"] = "gcc, g++, gfortran -ffree-line-length-none, rustc --edition 2021, bash"
+
+
+def replay(ctx, payload):
+    """Re-run one recorded case: ./check C19 --replay replays/C19-<seed>-<n>.json"""
+    np.seterr(all="ignore")
+    r = payload.get("replay", payload)
+    if "source" not in r:
+        print(json.dumps(payload, indent=1)[:4000])
+        return 2
+    pe = parse_env(r["source"])
+    if pe is None:
+        print("replay: the DIP source is rejected by the parser")
+        return 2
+    with core.lean_lock():
+        ok, out, _ = core.lake_build(["drv_c19"])
+    if not ok:
+        print(out[-2000:])
+        return 2
+    case = Case(r["source"], pe[0], pe[1], r["backend"], r.get("opts") or {}, r.get("query"), r.get("tags"), origin="replay")
+    run_cases(ctx, [case])
+    known = {f["signature"] for f in core.load_known().get("findings", []) if f["property"] == "C19"}
+    rc = 0
+    for v in ctx.violations:
+        tag = "KNOWN-FINDING" if v["signature"] in known else "VIOLATION"
+        print("%s [%s] %s" % (tag, v["signature"], v["what"]))
+        if tag == "VIOLATION":
+            rc = 1
+    for d in ctx.disagreements:
+        print("impl!=model [%s] %s" % (d["stream"], d["detail"][:400]))
+        rc = 1
+    if rc == 0:
+        print("replay: property holds on this input (%d evaluations)" % ctx.evaluations)
+    return rc
